@@ -159,6 +159,14 @@ func c11ErrCanon(err error) string {
 		}
 		break
 	}
+	if strings.HasPrefix(msg, "invalid type: ") && strings.Contains(msg, ", expected: ") {
+		// a failed execution.TypeAssertion
+		p := "-"
+		if len(path) > 0 {
+			p = strings.Join(path, ".")
+		}
+		return "err:" + p + ":" + hex.EncodeToString([]byte("invalid-type"))
+	}
 	if !strings.HasPrefix(msg, "panic: ") {
 		return "err:unparsed"
 	}
@@ -301,6 +309,8 @@ func driveC11(toks []string) string {
 		return driveC11Logical(toks)
 	case "lcmp":
 		return driveC11Cmp(toks)
+	case "lcall":
+		return driveC11Call(toks)
 	case "filter":
 		failAt := c11Nat(toks[1])
 		nf := c11Nat(toks[2])
@@ -704,6 +714,7 @@ func genC11(g *Gen, tier string, w *bufio.Writer) {
 	// 3b. logical expressions through the real typechecker
 	genC11Logical(g, thorough, func(l string) { fmt.Fprintln(w, l) })
 	genC11Cmp(func(l string) { fmt.Fprintln(w, l) })
+	genC11Call(func(l string) { fmt.Fprintln(w, l) })
 	// 4. Filter over streams
 	nf := 1500
 	if thorough {
@@ -785,6 +796,7 @@ func extractStrict(repoDir, outDir string) error {
 		idx    int
 		strict bool
 		arity  int // -1 = TypeFn
+		params []int
 	}
 	var entries []entry
 	seen := map[string]bool{}
@@ -848,6 +860,19 @@ func extractStrict(repoDir, outDir string) error {
 						return fmt.Errorf("functions.go: %q/%d: ArgumentTypes is not a literal", name, idx)
 					}
 					e.arity = len(al.Elts)
+					for _, pe := range al.Elts {
+						sel, ok := pe.(*ast.SelectorExpr)
+						id, known := map[string]int{"Null": 0, "Int": 1, "Float": 2, "Boolean": 3, "String": 4, "Time": 5, "Duration": 6, "Any": 11}[func() string {
+							if ok {
+								return sel.Sel.Name
+							}
+							return ""
+						}()]
+						if !ok || !known {
+							return fmt.Errorf("functions.go: %q/%d: argument type is not one of octosql.{Null,Int,Float,Boolean,String,Time,Duration,Any}", name, idx)
+						}
+						e.params = append(e.params, id)
+					}
 				case "TypeFn":
 					if e.arity == -2 {
 						e.arity = -1
@@ -882,9 +907,9 @@ func extractStrict(repoDir, outDir string) error {
 	var sb strings.Builder
 	sb.WriteString("/-! GENERATED by `vh extract strict` from functions/functions.go (FunctionMap) — do not edit.\n")
 	sb.WriteString("    One entry per descriptor: function name (bytes), index in `Descriptors`, the `Strict` flag,\n")
-	sb.WriteString("    the number of `ArgumentTypes` (none = the descriptor has a `TypeFn`). -/\n")
+	sb.WriteString("    the number of `ArgumentTypes` (none = the descriptor has a `TypeFn`), the TypeIDs of the `ArgumentTypes`. -/\n")
 	sb.WriteString("namespace Octo.Gen.Strict\n\n")
-	sb.WriteString("structure Entry where\n  name : List Nat\n  idx : Nat\n  strict : Bool\n  arity : Option Nat\n  deriving Repr, DecidableEq\n\n")
+	sb.WriteString("structure Entry where\n  name : List Nat\n  idx : Nat\n  strict : Bool\n  arity : Option Nat\n  params : List Nat\n  deriving Repr, DecidableEq\n\n")
 	sb.WriteString("def table : List Entry := [\n")
 	for i, e := range entries {
 		bs := make([]string, len(e.name))
@@ -899,7 +924,11 @@ func extractStrict(repoDir, outDir string) error {
 		if i == len(entries)-1 {
 			sep = ""
 		}
-		fmt.Fprintf(&sb, "  ⟨[%s], %d, %v, %s⟩%s  -- %s\n", strings.Join(bs, ", "), e.idx, e.strict, ar, sep, strconv.Quote(e.name))
+		ps := make([]string, len(e.params))
+		for j, p := range e.params {
+			ps[j] = strconv.Itoa(p)
+		}
+		fmt.Fprintf(&sb, "  ⟨[%s], %d, %v, %s, [%s]⟩%s  -- %s\n", strings.Join(bs, ", "), e.idx, e.strict, ar, strings.Join(ps, ", "), sep, strconv.Quote(e.name))
 	}
 	sb.WriteString("]\n\nend Octo.Gen.Strict\n")
 	if err := os.MkdirAll(outDir, 0o755); err != nil {
